@@ -144,9 +144,15 @@ package orefafs
 //@ func (*node).addChild
 //@   requires[C08] wheld(nd.mu)
 //@   modifies nd.children, nd.children[*]
+//@   ensures[C05] dom(nd.children, name) && nd.children[name] == child
+//@   ensures[C05] forall n string :: n != name ==> dom(nd.children, n) == old(dom(nd.children, n)) && nd.children[n] == old(nd.children[n])
 
 //@ func (*OrefaFS).createNode
 //@   requires[C08] wheld(vfs.mu) && parent != nil && vfs.lastId != nil
+// the path index and the parent's children map are updated in pairs, with a fresh node of link count 1
+//@   requires vfs.nodes != nil
+//@   ensures[C05] fresh(r0) && r0.nlink == 1 && r0.mode == mode
+//@   ensures[C05] dom(vfs.nodes, absPath) && vfs.nodes[absPath] == r0 && dom(parent.children, fileName) && parent.children[fileName] == r0
 //@ func (*node).remove
 //@   requires[C08] wheld(nd.mu)
 //@   modifies nd.children, nd.nlink, nd.data
